@@ -90,6 +90,55 @@ CLAIMED = {
     note="Dynamic traces for n<=8 and seeded inputs only; the schedule "
          "dimension is thin when control flow is data independent (said so "
          "in DESIGN)."),
+ "C26": dict(
+    engine="E4-transhistory",
+    technique="deterministic simulation: seeded transformation histories "
+              "and per-program class sweeps; the refusal raised inside "
+              "apply() is the crash point; state-before = state-after "
+              "oracle; ddmin-minimised replay",
+    text="All 57 concrete transformation classes are applied, with "
+         "constructor variants and 23 option dicts, to seeded nodes of "
+         "generated modules, both in random histories (<=8 ops) and in "
+         "sweeps over every node of a class's preferred kind. After every "
+         "TransformationError the written code, every symbol table (names, "
+         "tags, argument lists) and the node-by-node tree digest must equal "
+         "the snapshot taken before. Refusal sites reached are reported with "
+         "early/late counts. Sampling, not proof.",
+    design_ref="DESIGN.md 4.7",
+    note="Only TransformationError counts as a refusal; domain-specific "
+         "transformations meet generic PSyIR (plus PSy-layer sub-batch when "
+         "present)."),
+ "C10": dict(
+    engine="E4-transhistory",
+    technique="deterministic simulation (history dimension only): seeded "
+              "single-model directive-transformation histories, structural "
+              "scanner + gfortran -fopenmp/-fopenacc -fsyntax-only as "
+              "validity oracle after every accepted step",
+    text="Seeded histories of OpenMP-only or OpenACC-only region/loop/target/"
+         "taskloop transformations (plus loop restructuring) on generated "
+         "modules; after each accepted step the writer must refuse or emit "
+         "text obeying the three structural rules of the property and "
+         "accepted by gfortran as far as directives are concerned. "
+         "Sampling, not proof.",
+    design_ref="DESIGN.md 4.8",
+    note="gfortran 12 is the reference compiler; mixed OpenMP/OpenACC nests "
+         "are not generated."),
+ "C04": dict(
+    engine="E4-transhistory",
+    technique="deterministic simulation (history dimension only, no "
+              "scheduler): seeded histories of symbol-creating "
+              "transformations; scoped-lookup identity check, declaration "
+              "scan and gfortran -fsyntax-only oracle after every accepted "
+              "step",
+    text="Seeded histories biased to the transformations that add or merge "
+         "symbols on generated modules with a local kind parameter, "
+         "size-dependent bounds and an inlinable helper with clashing local "
+         "names; after each accepted step every Reference must resolve by "
+         "scoped lookup to the symbol it holds, no name is declared twice and "
+         "the text compiles without declaration-family errors. Sampling.",
+    design_ref="DESIGN.md 4.9",
+    note="Seeded history exploration, nothing more: this property has no "
+         "schedule and its only fault is the refusal."),
 }
 
 NOT_APPLICABLE = {
@@ -163,6 +212,9 @@ def main():
             {"name": "E3-ompsim", "path": "simkit/fgen.py, simkit/interp.py, checks/c09.py, checks/c08.py",
              "serves_properties": ["C09", "C08"],
              "kind_free_text": "program generator + PSyIR interpreter + OpenMP run-time simulator with seeded scheduler"},
+            {"name": "E4-transhistory", "path": "simkit/richgen.py, simkit/histmachine.py, simkit/gfcheck.py, checks/c26.py, checks/c10.py, checks/c04.py",
+             "serves_properties": ["C26", "C10", "C04"],
+             "kind_free_text": "transformation-history machine over generated modules; refusals as crash points; gfortran as validity oracle"},
             {"name": "E2-history", "path": "checks/c14.py, checks/c16.py, checks/c15.py",
              "serves_properties": ["C14", "C16", "C15"],
              "kind_free_text": "seeded operation histories against a reference model; refusals as faults; ddmin"},
